@@ -12,7 +12,7 @@ CLAIMED = {
         note="Partial: CPython's string hashing, numpy's generator and process-global state (lru_cache, keys added to user codon tables, marks on shared specification objects) cannot be exhibited by the Gallina model; that half is decided by differential runs only. Trusted: Coq kernel, the static scan (AST of the two files), subprocess launcher.",
         technique="Coq proof (permutation invariance of every set-consuming operation) + static audit of set-iteration sites + differential runs across hash seeds and process histories", design="6/C05"),
     "C07": dict(
-        text="Theorems (Coq): the synonymous-codon mutation space of EnforceTranslation (both strands, every generated genetic table without dual-use stop codons, every start-codon policy) contains exactly the sequences whose coding region translates to the wanted protein / whose first codon obeys the policy; the MaximizeCAI score is minus a sum of independent per-codon gaps and is 0 exactly when every codon is a most-frequent synonym. Together with C04 (exact space), C12/C15 (candidates never leave the space), C09 (codon-aligned localization is score-faithful), C06 (local exhaustive search exactly optimal) and C03 these give 'same protein, per-codon optimum'. End to end (Coq, C07_cai_optimize_end_to_end and ..._reverse_strand): for the problem {EnforceTranslation over a coding region on either strand without start-codon policy (any generated genetic code without dual-use stops) as only constraint, MaximizeCAI over the same region as only objective, mutation space built from the constraint's restrictions, codon tables consistent with the code, randomization threshold above 64}, for every usable starting state and configuration optimize() returns, the sequence still encodes the same protein, EVERY codon is a most-frequent synonym, the length is unchanged and no nucleotide outside the region is touched - nothing is assumed about the mutation space (TranslationSpace.v discharges the local-space hypothesis of the more general theorems: optimize() closes every gap of ANY separable objective, SolverE.v; MaximizeCAI under an abstract space hypothesis, CaiEnd.v). Start-codon policies, HarmonizeRCA, named and user tables and offsets are decided by the differential run against an independent per-codon table lookup: partial.",
+        text="Theorems (Coq): the synonymous-codon mutation space of EnforceTranslation (both strands, every generated genetic table without dual-use stop codons, every start-codon policy) contains exactly the sequences whose coding region translates to the wanted protein / whose first codon obeys the policy; the MaximizeCAI score is minus a sum of independent per-codon gaps and is 0 exactly when every codon is a most-frequent synonym. Together with C04 (exact space), C12/C15 (candidates never leave the space), C09 (codon-aligned localization is score-faithful), C06 (local exhaustive search exactly optimal) and C03 these give 'same protein, per-codon optimum'. End to end (Coq, C07_cai_optimize_end_to_end, ..._reverse_strand, and ..._keep_start for the start-codon policy 'keep': first codon untouched, every other codon a most-frequent synonym of its residue): for the problem {EnforceTranslation over a coding region on either strand without start-codon policy (any generated genetic code without dual-use stops) as only constraint, MaximizeCAI over the same region as only objective, mutation space built from the constraint's restrictions, codon tables consistent with the code, randomization threshold above 64}, for every usable starting state and configuration optimize() returns, the sequence still encodes the same protein, EVERY codon is a most-frequent synonym, the length is unchanged and no nucleotide outside the region is touched - nothing is assumed about the mutation space (TranslationSpace.v discharges the local-space hypothesis of the more general theorems: optimize() closes every gap of ANY separable objective, SolverE.v; MaximizeCAI under an abstract space hypothesis, CaiEnd.v). The other start-codon policies (ATG / explicit lists), HarmonizeRCA, named and user tables and offsets are decided by the differential run against an independent per-codon table lookup: partial.",
         note="Partial: the end-to-end theorems cover MaximizeCAI (both strands) without start-codon policy; the other variants are differential; named codon tables are the sandbox shim's; log/ratio floats compared with 1e-9 tolerance.",
         technique="Coq proof (restriction meaning for EnforceTranslation; per-codon decomposition of CAI; induction over the reported locations of optimize_objective on top of the exact optimality of the local exhaustive search) + vm_compute correspondence of the classes + end-to-end oracle on the implementation", design="6/C07"),
     "C04": dict(
@@ -20,7 +20,7 @@ CLAIMED = {
         note="Trusted: Coq kernel; hand model of MutationSpace/MutationChoice tied by correspondence; start-codon policy is read as part of the documented predicate of EnforceTranslation (the space is stricter than evaluate(), DESIGN section 7).",
         technique="Coq proof (fold invariant: partition index representing the intersection so far) + vm_compute correspondence + brute-force oracle", design="6/C04"),
     "C10": dict(
-        text="Theorems (Coq) relating the evaluation ALGORITHMS (cumulative sums, nonzero, grouping, coordinate mapping) to the documented formulas and to breach coverage for AvoidPattern, EnforcePatternOccurence, EnforceGCContent (windowed and global), EnforceSequence (both strands), AvoidChanges, AvoidStopCodons, EnforceChoice, SequenceLengthBounds and the binned-interval helper; all 16 modelled classes are tied to the code by vm_compute correspondence and checked against independent Python references (score formula, pass predicate, locations non-empty / inside the sequence / covering the breach). Partial: the formula theorems of the remaining classes are not proved (correspondence + references only).",
+        text="Theorems (Coq) relating the evaluation ALGORITHMS (cumulative sums, nonzero, grouping, coordinate mapping) to the documented formulas and to breach coverage for AvoidPattern, EnforcePatternOccurence, EnforceGCContent (windowed and global), EnforceSequence (both strands), AvoidChanges, AvoidStopCodons, EnforceChoice, SequenceLengthBounds, EnforceChanges (minimum and amount forms), EnforceTranslation, AvoidRareCodons, EnforceTerminalGCContent and the binned-interval helper; all 16 modelled classes are tied to the code by vm_compute correspondence and checked against independent Python references (score formula, pass predicate, locations non-empty / inside the sequence / covering the breach). Partial: the formula theorems of the remaining classes are not proved (correspondence + references only).",
         note="Trusted: Coq kernel; hand model Model/Specs.v; thresholds read as written decimals; codon tables are data (log-frequencies supplied as exact values of the implementation's floats).",
         technique="Coq proof (formula = algorithm, coverage via grouping lemmas) + vm_compute correspondence + independent reference oracles", design="6/C10"),
     "C13": dict(
